@@ -106,8 +106,12 @@ def match_wide_from(cond, st, hooks):
         for c, v in st.known.items():
             if tag(c) == "cmp" and c[1] == "eq" and c[2] == "f64" and (c[3] is av or c[4] is av):
                 eqmax = v
-            if tag(c) == "cmp" and c[1] == "ge" and c[2] == ty and c[3] is p and c[4] is back:
-                ge = v
+            if tag(c) == "cmp" and c[2] == ty and type(v) is not tuple:
+                # value >= a as T, in any of its spellings
+                if c[3] is p and c[4] is back and c[1] in ("ge", "lt"):
+                    ge = v if c[1] == "ge" else 1 - v
+                elif c[3] is back and c[4] is p and c[1] in ("le", "gt"):
+                    ge = v if c[1] == "le" else 1 - v
         if eqmax == 1 and op == "sub" and tag(a) == "const" and b is p:
             return True
         if eqmax == 1 and op == "add" and tag(b) == "const" and vg.to_signed(ty, b[2]) == 1 and tag(a) == "i" and a[1] == "sub" and a[4] is p:
